@@ -41,6 +41,16 @@ func mParseInts(s string) []funit.Int16 {
 		return out
 	}
 	for _, t := range strings.Split(s, ",") {
+		if p := strings.Split(t, "^"); len(p) == 3 {
+			// arithmetic run `a^m^k`: the k values (a + i) mod m (neighbours differ)
+			a, _ := strconv.Atoi(p[0])
+			m, _ := strconv.Atoi(p[1])
+			n, _ := strconv.Atoi(p[2])
+			for i := 0; i < n; i++ {
+				out = append(out, funit.Int16((a+i)%m))
+			}
+			continue
+		}
 		k := 1
 		if i := strings.IndexByte(t, '*'); i >= 0 {
 			k, _ = strconv.Atoi(t[i+1:])
@@ -55,6 +65,19 @@ func mParseInts(s string) []funit.Int16 {
 		}
 	}
 	return out
+}
+
+// mDigest: length, polynomial hash, first and last value of a long int16 vector
+func mDigest(l []funit.Int16) string {
+	h := uint64(7)
+	for _, v := range l {
+		h = (h*31 + uint64(uint16(v)) + 1) % 2147483647
+	}
+	first, last := 0, 0
+	if len(l) > 0 {
+		first, last = int(l[0]), int(l[len(l)-1])
+	}
+	return fmt.Sprintf("%d/%d/%d/%d", len(l), h, first, last)
 }
 
 func mParseRect(t string) funit.Rect16 {
@@ -271,6 +294,18 @@ func init() {
 				s = hx(hm)
 			}
 			return "ok:" + hx(hhea) + ":" + s
+		}))
+	}
+	// D: Decode(Encode(info)) on the real code, as digests (so that 65535-glyph cases stay small)
+	ops["metrics.hmtxrt"] = func(f Fields) string {
+		return canonPanic(guard(func() string {
+			info := &hmtx.Info{Widths: mParseInts(f["w"]), GlyphExtents: mParseRects(f["ext"]), LSB: mParseInts(f["lsb"])}
+			hhea, hm := info.Encode()
+			out, err := hmtx.Decode(hhea, hm)
+			if err != nil {
+				return mErrClass(err)
+			}
+			return fmt.Sprintf("k=%d;w=%s;lsb=%s", int(hhea[34])<<8|int(hhea[35]), mDigest(out.Widths), mDigest(out.LSB))
 		}))
 	}
 	ops["metrics.hmtxdec"] = func(f Fields) string {
@@ -553,6 +588,9 @@ func hmtxCase(c *Ctx, ws []funit.Int16, es []funit.Rect16, ls []funit.Int16, lab
 	}
 	// the real decoder on the real encoder's output
 	c.Case(Verdict, "metrics.hmtxdec", "hhea="+hheaHex+" hmtx="+hmtxHex, nontriv)
+	if ws != nil && len(ws) > 0 && hmtxHex != "-" {
+		c.Case(Direct, "metrics.hmtxrt", fmt.Sprintf("w=%s ext=%s lsb=%s", mShowInts(ws), mShowRects(es), mShowInts(ls)), nontriv)
+	}
 	// derived fields against their definitions, inside the hypothesis of C12_hhea_derived
 	if ws != nil && es != nil && len(ws) == len(es) && len(ws) > 0 {
 		lsbOK := ls == nil
@@ -715,6 +753,42 @@ func areaMetrics(c *Ctx) {
 			label = "no-extents"
 		}
 		hmtxCase(c, ws, es, ls, label)
+	}
+	// the upper half of the glyph-count range: 32767, 32768, 32769, 40000, 65535 glyphs with that many
+	// (or nearly that many) LONG metrics — pairwise different neighbouring widths given by an arithmetic
+	// run `a^m^k` — and constant tails of length 0, 1, 2, many
+	bigCounts := []int{32767, 32768, 32769, 65535}
+	bigTails := []int{0, 300}
+	if c.Tier == "thorough" {
+		bigCounts = []int{32767, 32768, 32769, 40000, 65534, 65535}
+		bigTails = []int{0, 1, 2, 300}
+	}
+	for _, g := range bigCounts {
+		for _, tail := range bigTails {
+			m := r.Range(20000, 32767)
+			a := r.Range(0, m-1)
+			long := g - tail
+			lastLong := (a + long - 1) % m
+			wArg := fmt.Sprintf("%d^%d^%d", a, m, long)
+			if tail > 0 {
+				wArg += fmt.Sprintf(",%d*%d", (lastLong+1)%m+1, tail) // a value different from the last long width
+			}
+			extArg, lsbArg := "-", fmt.Sprintf("%d^%d^%d", r.Range(0, 900), r.Range(901, 1000), g)
+			if r.Bool() {
+				extArg, lsbArg = fmt.Sprintf("%s*%d", mShowRect(mRect(r, 500, 0)), g), "-"
+			}
+			args := fmt.Sprintf("w=%s ext=%s lsb=%s asc=%d desc=%d gap=%d coff=%d rise=1 run=0", wArg, extArg, lsbArg, mI16(r), mI16(r), mI16(r), mI16(r))
+			out := c.Case(Verdict, "metrics.hmtxenc", args, true)
+			c.Stat("hmtx_kind", "32767..65535 glyphs, long metrics")
+			c.Stat("hmtx_big", fmt.Sprintf("glyphs=%d tail=%d", g, tail))
+			c.Case(Direct, "metrics.hmtxrt", fmt.Sprintf("w=%s ext=%s lsb=%s", wArg, extArg, lsbArg), true)
+			if strings.HasPrefix(out, "ok:") {
+				p := strings.Split(out[3:], ":")
+				if tail == 0 || c.Tier == "thorough" { // the decoder on the (large) encoder output
+					c.Case(Verdict, "metrics.hmtxdec", "hhea="+p[0]+" hmtx="+p[1], true)
+				}
+			}
+		}
 	}
 	// nil / empty / mismatching slices (outside the stated domain: verdict only)
 	for i := 0; i < n/25+6; i++ {
@@ -908,7 +982,7 @@ func areaMetrics(c *Ctx) {
 
 	// ---- (c) maxp ----
 	for i := 0; i < n/10+8; i++ {
-		ng := Pick(r, []int{1, 2, 255, 256, 65535, r.Range(1, 65535), r.Range(1, 65535)})
+		ng := Pick(r, []int{1, 2, 255, 256, 32767, 32768, 32769, 65535, r.Range(1, 65535), r.Range(1, 65535)})
 		if i%8 == 7 {
 			ng = Pick(r, []int{0, -1, 65536, 70000})
 		}
